@@ -6,7 +6,7 @@
    [H] is the 64-bit key hash: universally quantified, so every statement
    holds under hash collisions.  [cfg_valid c] is exactly what
    NewFailureCache accepts: 1 s <= initialTTL <= maxTTL <= 5 min. *)
-From Sdns Require Import Common.Base Common.GoList Gen.C13 C13.Model C13.Proofs_Base C13.Proofs_Backoff C13.Proofs_Cache C13.Proofs_Conc C13.Proofs_Gen C13.Proofs_Wire C13.Proofs_Walk.
+From Sdns Require Import Common.Base Common.GoList Gen.C13 C13.Model C13.Proofs_Base C13.Proofs_Backoff C13.Proofs_Cache C13.Proofs_Conc C13.Proofs_Gen C13.Proofs_Wire C13.Proofs_Walk C13.Proofs_Cohort.
 Open Scope Z_scope.
 
 (* The backoff starts at the configured minimum, is non-decreasing, at most
@@ -301,6 +301,38 @@ Proof.
           (fun n sched a => election_only_when_idle _ a (probe_inv_run n sched)))).
 Qed.
 Print Assumptions abandoned_leader_is_never_replaced.
+
+(* Requests that share one dedup key while a miss is being resolved (Cache.ServeDNS,
+   JoinGeneration path; Model.v part 3: the ladder a follower runs when it wakes is the
+   ladder of an arrival, on the state the leader left).  When the leader's resolution
+   ends in a shared (cacheable) failure — whatever zone failure the resolver published
+   on the way, for every key hash, every store with rfc9520 on, every answer-cache
+   content, any number of followers spelling the leader's question in any letter case /
+   with any host bits in their ECS source — NO follower goes downstream: each is
+   answered from the failure cache (or the answer cache), and the group as a whole sent
+   at most one request upstream. *)
+Theorem fresh_failure_serves_every_follower : forall H c, cfg_valid c ->
+  forall s0 pos0 s pos now ld fs r s' pos' la fa,
+  s_disabled s = false ->
+  snd (fst ld) = DFail r -> cacheable_failure r = true ->
+  (forall f, In f fs -> norm_qkey (cr_key f) = norm_qkey (cr_key ld)) ->
+  cohort_group H c s0 pos0 s pos now ld fs = (s', pos', la, fa) ->
+  Forall (fun a => is_down a = false) fa /\ group_calls la fa <= 1.
+Proof. exact Proofs_Cohort.fresh_failure_serves_every_follower. Qed.
+Print Assumptions fresh_failure_serves_every_follower.
+
+(* ... and a leader's REQUEST-LOCAL failure (work budget, deadline, cancellation, shed
+   load, optional enrichment) is served to nobody: every follower that waited behind it
+   asks upstream itself. *)
+Theorem request_local_leader_shares_nothing : forall H c,
+  forall s0 pos0 now kl r fs s' pos' la fa,
+  request_local r = true ->
+  ladder_of H s0 pos0 kl now = LMiss ->
+  (forall f, In f fs -> norm_qkey (cr_key f) = norm_qkey kl) ->
+  cohort_group H c s0 pos0 s0 pos0 now (kl, DFail r, None) fs = (s', pos', la, fa) ->
+  la = CDown false /\ Forall (fun a => a = CDown true) fa.
+Proof. exact Proofs_Cohort.request_local_leader_shares_nothing. Qed.
+Print Assumptions request_local_leader_shares_nothing.
 
 (* Cached failures are terminal for the wrapper in front of the cache (dns64):
    the only SERVFAIL it follows up with a corresponding A query is a shared
